@@ -25,6 +25,16 @@ class FuncInfo:
         self.cls = cls                  # ClassInfo or None
         self.decorators = [_dotted(d.func if isinstance(d, ast.Call) else d)
                            for d in node.decorator_list]
+        self.param_alias = {}           # current parameter name -> name the rules know it by (renamed parameters)
+
+    def old_name(self, param):
+        return self.param_alias.get(param, param)
+
+    def rules_view(self, bound):
+        """Bound arguments keyed by the parameter names the rules were written against."""
+        if not self.param_alias:
+            return bound
+        return {self.param_alias.get(k, k): v for k, v in bound.items()}
 
     @property
     def key(self):
@@ -353,14 +363,12 @@ class Repo:
     # ---------------------------------------------------------------- renames
     def _resolve_renames(self):
         """A private helper known to the rules that no longer exists under its name, while exactly one
-        *new* private function of the same module/class with the same parameter names is called from
+        *new* private function of the same module/class with the same number of parameters is called from
         the helper's former callers, has been renamed: it keeps answering to the old key."""
         spec = _known_spec()
         known = set(spec.get('functions', []))
         private = spec.get('private', {})
         missing = [k for k in private if not self.has_func(k)]
-        if not missing:
-            return
         new = [f for f in self.all_functions() if f.key not in known and not f.is_setter
                and f.name.startswith('_') and not f.name.startswith('__')]
         calls = {}
@@ -371,7 +379,7 @@ class Repo:
             for f in new:
                 if f.module.name != mod or (f.cls.name if f.cls else None) != owner:
                     continue
-                if [p[0] for p in f.params()] != private[key]['params']:
+                if len(f.params()) != len(private[key]['params']):
                     continue
                 callers = [c for c in private[key]['callers'] if self.has_func(c)]
                 hit = False
@@ -388,6 +396,14 @@ class Repo:
                 f.module.functions[qual] = f
                 if f.cls is not None:
                     f.cls.methods[qual.rsplit('.', 1)[1]] = f
+        # renamed parameters of private helpers (same number and kinds): the rules keep using the old names
+        for key, info in private.items():
+            if not self.has_func(key):
+                continue
+            f = self.func(key)
+            cur = [p[0] for p in f.params()]
+            if cur != info['params'] and len(cur) == len(info['params']):
+                f.param_alias = {c: o for c, o in zip(cur, info['params']) if c != o}
 
     # ---------------------------------------------------------------- lookup
     def func(self, key):
